@@ -258,6 +258,17 @@ def run(tier, seed, replay=None):
     bp = probe.build_probe()
     outroot = os.path.join(WORK, "c11-out")
     shutil.rmtree(outroot, ignore_errors=True)
+    # every second output directory already holds an older, much longer export (a build script runs again and again)
+    stale = json.dumps(["stale entry %d of an earlier export" % k for k in range(6000)])
+    for i, p in enumerate(projs):
+        if i % 2 == 0:
+            for ns in (p["cfg"].get("namespaces") or [None]):
+                for loc in gen.effective_locales(p["cfg"]):
+                    path = os.path.join(outroot, str(i), loc + ".json") if ns is None else os.path.join(outroot, str(i), ns, loc + ".json")
+                    os.makedirs(os.path.dirname(path), exist_ok=True)
+                    with open(path, "w") as f:
+                        f.write(stale)
+    res.extra["output_dirs_with_an_older_export"] = (len(projs) + 1) // 2
     bres = probe.run_parallel(bp, [{"id": i, "dir": d, "out": os.path.join(outroot, str(i))} for i, d in enumerate(dirs)])
     ncg = n if tier == "thorough" else n // 4
     tok = {}
